@@ -633,12 +633,16 @@ impl Counts {
             self.num_send_streams
         );
 
+        // The stream has left the reset-expiration queue: its slot in the
+        // locally-reset count is free again, also when its RST_STREAM frame
+        // has not been flushed yet (the stream is not `is_closed()` then).
+        if is_reset_counted && !stream.is_pending_reset_expiration() {
+            self.dec_num_reset_streams();
+        }
+
         if stream.is_closed() {
             if !stream.is_pending_reset_expiration() {
                 stream.unlink();
-                if is_reset_counted {
-                    self.dec_num_reset_streams();
-                }
             }
 
             if !stream.state.is_scheduled_reset() && stream.is_counted {
